@@ -25,6 +25,7 @@ THEOREMS: Dict[str, str] = {
     "C10_attr_inert": "full",
     "C10_id_charset": "full",
     "C10_cell_skeleton_partial": "partial",
+    "C10_cell_inert": "full",
     "C10_template_sinks": "full",
     "C10_markup_escape_inert": "full",
     "C10_ex_tokenize": "example",
